@@ -570,3 +570,23 @@ func (m *model) misordered(aud []audRow) string {
 	}
 	return ""
 }
+
+// groupHasClause tells whether the (table, event) group named in an adoptOrders complaint ("class
+// table|TIME|EVENT: ...") contains a FOLLOWS/PRECEDES trigger (BEFORE and AFTER together, because
+// plan.OrderTriggers orders them in one list).
+func (m *model) groupHasClause(complaint string) bool {
+	f := strings.Fields(complaint)
+	if len(f) < 2 {
+		return false
+	}
+	parts := strings.Split(strings.TrimSuffix(f[1], ":"), "|")
+	if len(parts) != 3 {
+		return false
+	}
+	for _, t := range m.trigs {
+		if t.table == parts[0] && t.event == parts[2] && (t.follows != "" || t.precedes != "") {
+			return true
+		}
+	}
+	return false
+}
